@@ -78,6 +78,56 @@ def r1_counter(L, repo):
     return H
 
 
+def tick_fold(L, repo):
+    """One tick (send_clck_ind) folded on witnesses: frame counter at 0, 1, next to and on multiples of the indication
+    period, at the last multiple before and on the last frame of the hyperframe; periods 102, 51, 7, 1; no / one / three
+    attached links (recording oracles); with and without a frame handler.  Required: the handler is called exactly once
+    with the tick's frame number; every link receives exactly one 'IND CLOCK <fn>' + NUL iff the frame number is a
+    multiple of the period, nothing otherwise; afterwards the counter is (fn + 1) mod hyperframe.
+    -> False when the method does not fold (the shape rules decide then)"""
+    from consteval import Opaque
+    ci, fd = repo.need_method("clck_gen", "CLCKGen", "send_clck_ind")
+    fn = "CLCKGen.send_clck_ind"
+    H = fold(repo, repo.mod("gsm_shared"), ast.parse("GSM_HYPERFRAME", mode="eval").body)
+    rows = []
+    try:
+        for P in (102, 51, 7, 1):
+            srcs = sorted({0, 1, P - 1, P, P + 1, 2 * P, H - 1, (H - 1) - ((H - 1) % P)} & set(range(H)))
+            for src in srcs:
+                for nl in (0, 1, 3):
+                    for handler in (True, False):
+                        links = [Opaque("LINK%d" % i) for i in range(nl)]
+                        sent, hcalls = [], []
+                        e = Ev(repo, ci.mod, env={"self.clck_src": src, "self.ind_period": P, "self.clck_links": list(links),
+                                                  "self.clck_handler": Opaque("HANDLER") if handler else None}, self_cls=ci)
+                        e.ignore_calls = ("log.", "logging.")
+                        e.hooks = {"HANDLER": lambda a, hc=hcalls: hc.append(tuple(a)), "self.clck_handler": lambda a, hc=hcalls: hc.append(tuple(a))}
+                        for i in range(nl):
+                            e.hooks["LINK%d.send" % i] = (lambda a, i=i, sn=sent: sn.append((i, a[0] if a else None)))
+                        e.run_block(fd.body)
+                        rows.append((P, src, nl, handler, sent, hcalls, e.env.get("self.clck_src")))
+    except (Unknown, Raised):
+        return False
+    L.fn(F, fn)
+    bad_ind, bad_h, bad_c = [], [], []
+    for P, src, nl, handler, sent, hcalls, after in rows:
+        pay = "IND CLOCK %u\0" % src
+        want = [(i, pay) for i in range(nl)] if src % P == 0 else []
+        got = sorted((i, p_.decode("latin-1") if isinstance(p_, (bytes, bytearray)) else p_) for i, p_ in sent)
+        if got != want:
+            bad_ind.append("period %d, frame %d, %d links: sent %r" % (P, src, nl, got[:3]))
+        if hcalls != ([(src,)] if handler else []):
+            bad_h.append("frame %d: handler calls %r" % (src, hcalls[:3]))
+        if after != (src + 1) % H:
+            bad_c.append("frame %d -> %r" % (src, after))
+    L.ob("C09.R2", F, fn, "tick fold: every attached link gets exactly one 'IND CLOCK <fn>' + NUL iff the frame number is a multiple of the period (%d witnesses)" % len(rows),
+         [], bad_ind[:3], not bad_ind, fd.lineno)
+    L.ob("C09.R1", F, fn, "tick fold: the frame handler is called exactly once per tick with the tick's frame number", [], bad_h[:3], not bad_h, fd.lineno)
+    L.ob("C09.R1", F, fn, "tick fold: the frame counter advances by one modulo the hyperframe", [], bad_c[:3], not bad_c, fd.lineno)
+    L.floor("C09.R2", "tick witnesses folded", len(rows), 100)
+    return True
+
+
 def r2_indication(L, repo):
     ci, fd = repo.need_method("clck_gen", "CLCKGen", "send_clck_ind")
     fn = "CLCKGen.send_clck_ind"
@@ -585,8 +635,14 @@ def r7_worker_setup(L, repo):
 
 def run(L, tier):
     repo = Repo(L.repo)
-    L.stage(r1_counter, L, repo)
-    L.stage(r2_indication, L, repo)
+    if L.stage(tick_fold, L, repo) is True:
+        # the fold decides; the shape of the statements is a proof attempt for all frame numbers / periods / link lists
+        L.structural("C09.R1 shape of the counter update and the handler call in send_clck_ind", r1_counter, L, repo,
+                     hard=lambda rule, key: "GSM_HYPERFRAME" in key)
+        L.structural("C09.R2 guard set of the indication loop in send_clck_ind", r2_indication, L, repo)
+    else:
+        L.stage(r1_counter, L, repo)
+        L.stage(r2_indication, L, repo)
     L.stage(r3, L, repo)
     L.stage(r4_restart, L, repo)
     L.stage(r7_worker_setup, L, repo)
